@@ -251,7 +251,11 @@ def oracle_planted(c, stats):
             continue
         fails += finite_outputs("%s.%s" % (TP, alg), res)
         if "error" in x:
-            fails.append("%s.%s.refused: the determined rest is not adjusted: %s" % (TP, alg, x["error"]["descriptions"]))
+            if alg == "svd" and any("No convergence in SVD" in (d_ or "") for d_ in x["error"]["descriptions"]):
+                # recorded finding: the QR iteration of the SVD stagnates on particular (measure-zero) matrices
+                fails.append("%s.svd.no_convergence: the determined rest is not adjusted: %s" % (TP, x["error"]["descriptions"]))
+            else:
+                fails.append("%s.%s.refused: the determined rest is not adjusted: %s" % (TP, alg, x["error"]["descriptions"]))
             continue
         X[alg] = x
         got = set(a["id"] for k in ("fixed", "adjusted") for a in x["coordinates"][k])
